@@ -1,6 +1,6 @@
 (* Props/C25.v — Value and log encodings round-trip safely.
    Only statements, `exact`, and Print Assumptions. *)
-From NDB Require Import Base.Bytes Codec.Utf8 Codec.PropValue Codec.PropValue_proofs.
+From NDB Require Import Base.Bytes Codec.Utf8 Codec.Crc32 Codec.PropValue Codec.PropValue_proofs Codec.WalRecord Codec.WalLog Codec.WalLog_proofs.
 Open Scope N_scope.
 
 (* every well-formed property value (nested lists and maps, floats as 64-bit
@@ -25,3 +25,46 @@ Definition C25_decode_safe_statement : Prop :=
 Theorem C25_decode_safe : C25_decode_safe_statement.
 Proof. exact dec_top_good. Qed.
 Print Assumptions C25_decode_safe.
+
+(* container elements the decoder holds (reserved up front + pushed into vectors +
+   inserted into maps, summed over the whole call) never exceed the input length:
+   nothing is reserved on the word of a length field *)
+Definition C25_alloc_bounded_statement : Prop := forall b : bytes, alloc_request b <= len b.
+Theorem C25_alloc_bounded : C25_alloc_bounded_statement.
+Proof. exact alloc_bounded. Qed.
+Print Assumptions C25_alloc_bounded.
+
+(* recursion depth: at most one level per 5 input bytes (and no better bound exists:
+   see the Example below and known finding K-C25-depth) *)
+Definition C25_depth_bounded_statement : Prop := forall b : bytes, 5 * depth b <= len b + 5.
+Theorem C25_depth_bounded : C25_depth_bounded_statement.
+Proof. exact depth_bounded. Qed.
+Print Assumptions C25_depth_bounded.
+Example C25_depth_linear_witness :
+  let nest := fix nest (k : nat) : bytes := match k with O => [0] | S k' => [7; 1; 0; 0; 0] ++ nest k' end in
+  depth (nest 40%nat) = 41 /\ len (nest 40%nat) = 201.
+Proof. vm_compute. split; reflexivity. Qed.
+
+(* log framing: a record body of 1..MAX bytes written as len|crc32|body is read back
+   exactly, whatever follows it *)
+Definition C25_frame_roundtrip_statement : Prop :=
+  forall body rest, 1 <= len body <= wal_max_record_len ->
+    next_frame (frame_body body ++ rest) = NRec body rest.
+Theorem C25_frame_roundtrip : C25_frame_roundtrip_statement.
+Proof. exact next_frame_frame. Qed.
+Print Assumptions C25_frame_roundtrip.
+
+(* NOT PROVED (kept as the full statement; sampled by the correspondence check on every
+   record kind and shown on one record of each kind below): every well-formed log record
+   is decoded to exactly what was encoded *)
+Definition C25_wal_roundtrip_full_statement : Prop :=
+  forall r, wf_rec r = true -> decode_body (encode_body r) = WOk r.
+Example C25_wal_roundtrip_each_kind :
+  forallb (fun r => wf_rec r && match decode_body (encode_body r) with WOk r' => wrec_eqb r r' | _ => false end)
+    [WBegin 7; WCommit 18446744073709551615; WPageWrite 3 (repeat 171 8192); WPageFree 0;
+     WCreateLabel [66; 195; 169] 4294967295; WCreateNode 5 0 1; WAddNodeLabel 1 2; WRemoveNodeLabel 1 2;
+     WCreateEdge 1 2 3; WTombstoneNode 9; WTombstoneEdge 3 2 1;
+     WManifestSwitch 4 [(1, 2); (3, 4)] 5 6; WManifestSwitch 0 [] 0 0; WCheckpoint 1 2 3 4;
+     WSetNodeProp 1 [107] (PMap [([], PNull); ([97], PList [PFloat 18444492273895866368; PStr [240; 159; 152; 128]])]);
+     WSetEdgeProp 1 2 3 [] (PBlob [0; 255]); WRemoveNodeProp 1 [107]; WRemoveEdgeProp 1 2 3 [229; 144; 141]] = true.
+Proof. vm_compute. reflexivity. Qed.
